@@ -146,8 +146,13 @@ func lex(q string) ([]tok, error) {
 	return out, nil
 }
 
+var quoteRepl = strings.NewReplacer(`\`, `\\`, `'`, `\'`)
+
 func quoteStr(s string) string {
-	return "'" + strings.NewReplacer(`\`, `\\`, `'`, `\'`).Replace(s) + "'"
+	if strings.IndexByte(s, '\'') < 0 && strings.IndexByte(s, '\\') < 0 {
+		return "'" + s + "'"
+	}
+	return "'" + quoteRepl.Replace(s) + "'"
 }
 
 func simpleIdent(s string) bool {
